@@ -390,3 +390,71 @@ pub fn wit_cases(out: &mut Out, r: &mut Rng) {
         }
     }
 }
+
+
+/// `set_instantiation_argument` verdicts: component A exports interface `a`, component B imports
+/// an interface of the same name with (mutated) contents; the argument is A's export.
+pub fn arg_case(out: &mut Out, r: &mut Rng) {
+    use wac_graph::{CompositionGraph, InstantiationArgumentError};
+    let a = gen_iface(r);
+    let mut bq = a.clone();
+    let what = if r.chance(1, 3) { "identical" } else { mutate(r, &mut bq) };
+    let build = |it: &Iface, world: &str| -> anyhow::Result<Vec<u8>> {
+        let wit = format!("package t:p;\n{}world w {{ {world} a; }}\n", show_iface("a", it));
+        let mut resolve = wit_parser::Resolve::default();
+        let pkg = resolve.push_str("p.wit", &wit)?;
+        let world = resolve.select_world(&[pkg], None)?;
+        let mut module = wit_component::dummy_module(
+            &resolve,
+            world,
+            wit_parser::ManglingAndAbi::Legacy(wit_parser::LiftLowerAbi::Sync),
+        );
+        wit_component::embed_component_metadata(&mut module, &resolve, world, wit_component::StringEncoding::default())?;
+        let mut enc = wit_component::ComponentEncoder::default().validate(true).module(&module)?;
+        enc.encode()
+    };
+    let (Ok(ca), Ok(cb)) = (build(&a, "export"), build(&bq, "import")) else {
+        out.count("arg:component-rejected");
+        return;
+    };
+    let mut graph = CompositionGraph::new();
+    let (Ok(pa), Ok(pb)) = (
+        wac_types::Package::from_bytes("exp", None, ca, graph.types_mut()),
+        wac_types::Package::from_bytes("imp", None, cb, graph.types_mut()),
+    ) else {
+        out.count("arg:decode-failed");
+        return;
+    };
+    let name = "t:p/a";
+    let Some(expected) = graph.types()[pb.ty()].imports.get(name).copied() else {
+        out.count("arg:no-import");
+        return;
+    };
+    let (Ok(ida), Ok(idb)) = (graph.register_package(pa), graph.register_package(pb)) else { return };
+    let ia = graph.instantiate(ida);
+    let ib = graph.instantiate(idb);
+    let Ok(alias) = graph.alias_instance_export(ia, name) else {
+        out.count("arg:no-export");
+        return;
+    };
+    let kind = graph[alias].item_kind();
+    let res = crate::guarded(std::panic::AssertUnwindSafe(|| graph.set_instantiation_argument(ib, name, alias)));
+    let (v, msg) = match res {
+        Ok(Ok(())) => ("1".to_string(), String::new()),
+        Ok(Err(InstantiationArgumentError::ArgumentTypeMismatch { source, .. })) => ("0".to_string(), format!("{source:#}")),
+        Ok(Err(e)) => ("P".to_string(), format!("{e}")),
+        Err(p) => ("P".to_string(), p),
+    };
+    out.count(&format!("arg-verdict:{v}"));
+    out.count(&format!("arg-mutation:{what}"));
+    let fields = vec![
+        crate::esc(&ser_types(graph.types(), 1)),
+        crate::esc(&ser_kind(kind)),
+        "=".to_string(),
+        crate::esc(&ser_kind(expected)),
+        v,
+        crate::esc(&msg),
+        "-".to_string(),
+    ];
+    out.case(a != bq, "pair", &fields);
+}
